@@ -72,6 +72,8 @@ def _case(draw, tier):
         "form": draw(st.sampled_from(["scalar", "scalar", "matrix1", "blocks", "matrix2mask"])),
         # operator-valued elimination mask: eliminate only the shifts of these perturbation words (and their adjoints)
         "mask_words": sorted(draw(st.sets(st.integers(0, n_words - 1), min_size=1))) if draw(st.integers(0, 2)) == 0 else None,
+        # symbolic-power mask  a**(k+p) + Dagger(a)**(k+p): eliminate every pure shift of the first boson/ladder mode by >= p
+        "power_mask": draw(st.sampled_from([None, None, None, 1, 2])),
     }
 
 
@@ -188,6 +190,12 @@ def build(case):
                     if x < 0:
                         mono = mono * op ** (-x)
                 mask_expr = mask_expr + mono
+    pm = case.get("power_mask")
+    if pm and case["form"] in ("scalar", "matrix1") and kinds[0] in ("b", "l"):
+        kk = sympy.symbols("k", integer=True, nonnegative=True)
+        mask_expr = ops[0] ** (kk + pm) + Dagger(ops[0]) ** (kk + pm)
+        bound = K * degree + 1
+        eliminated = {tuple(sgn * q if j == 0 else 0 for j in range(len(ops))) for q in range(pm, bound + 1) for sgn in (1, -1)}
     return {"mask_expr": mask_expr, "eliminated": eliminated,"ops": ops, "kinds": kinds, "H0": H0, "H1": H1, "cutoff": cutoff, "degree": degree, "energy": energy, "interaction": has_inter, "reach": reach}
 
 
@@ -221,6 +229,7 @@ def check_case(case, enforce_all=False):
         out.labels.append("skipped:space-too-large")
         return out
     form = case["form"]
+    kinds_sorted = b["kinds"]
     H0, H1 = b["H0"], b["H1"]
     # ------------------------------------------------------------- library
     try:
@@ -229,6 +238,8 @@ def check_case(case, enforce_all=False):
             mk = {} if b["mask_expr"] is None else {"fully_diagonalize": b["mask_expr"] if form == "scalar" else sympy.Matrix([[b["mask_expr"]]])}
             if mk:
                 out.labels.append("operator-mask")
+                if case.get("power_mask") and kinds_sorted[0] in ("b", "l"):
+                    out.labels.append("symbolic-power-mask")
             if form == "scalar":
                 Ht, U, Ui = block_diagonalize([H0, H1], **mk)
                 pick = lambda x: x  # noqa: E731
